@@ -28,11 +28,18 @@ inductive Err
   | index     -- "invalid leaf index"
   | prv       -- private key out of 1..n-1
   | version   -- "invalid leaf version"  (leaf_hash: outside 0..255)
+  | node      -- "invalid script tree node: … instead of a leaf or two subtrees"  (tree_helper)
+  | leaf      -- "invalid script tree leaf: not a (leaf version, script) pair"    (_tree_helper)
+  | vtype     -- BTClibTypeError "invalid leaf version type"  (_tree_helper / leaf_hash: not an int, or a bool)
+  | stype     -- BTClibTypeError "invalid tapscript type"     (taproot.serialize: the script is not a list)
+  | codec     -- a list in script position that is not given as `PyVal.cmds`: what `taproot.serialize` answers for it
+              -- is the script codec's business, outside this model (never produced by the harness)
   deriving DecidableEq, Repr
 
 def Err.name : Err → String
   | .toolong => "toolong" | .badlen => "badlen" | .tweak => "tweak" | .key => "key"
   | .missing => "missing" | .index => "index" | .prv => "prv" | .version => "version"
+  | .node => "node" | .leaf => "leaf" | .vtype => "vtype" | .stype => "stype" | .codec => "codec"
 
 /-- a script tree: `[(version, script)]` is a leaf, `[left, right]` a branch -/
 inductive Tree where
@@ -222,4 +229,108 @@ def checkOutputPubkey (q script control : Bytes) : Except Err Bool := do
     pure (o.x Q == (ofBE q : Nat) && c0 &&& PARITY_MASK == (o.y Q % 2).toNat)
 
 end group
+
+/-! ## the Python values that reach `tree_helper` (the `TaprootScriptTree` alias is not enforced at run time)
+
+`tree_helper` / `_tree_helper` read of a node only: is it a list or tuple, how many elements, and — for a
+one-element node — is the element a 2-sequence `(leaf version, script)` whose first half is an `int` that is no
+`bool`; `taproot.serialize` then wants the script to be a `list`.  `PyVal` has exactly that much structure.  One Python
+object may have two spellings here (`[]` is `nil true` and `cmds 0 []`; `["OP_1"]` is `one true (atom true)` and
+`cmds 1 [0x51]`): every function below answers both spellings alike. -/
+inductive PyVal where
+  | int (v : Int)                       -- an `int` that is not a `bool`
+  | atom (truthy : Bool)                -- None, str, bytes, bool, float, …: neither list/tuple nor integer
+  | cmds (n : Nat) (b : Bytes)          -- a LIST of `n` script commands, each a str or bytes (what `taproot.parse` returns:
+                                        -- no int, no sequence), that `taproot.serialize` turns into `b`
+  | nil (isList : Bool)                 -- `[]` / `()`
+  | one (isList : Bool) (x : PyVal)     -- `[x]` / `(x,)`
+  | two (isList : Bool) (x y : PyVal)   -- `[x, y]` / `(x, y)`
+  | many (isList : Bool) (k : Nat)      -- a list / tuple of `k + 3` elements (they are never read)
+  deriving Repr
+
+/-- `bool(value)`: what `if script_tree` / `if not script_tree` read -/
+def PyVal.truthy : PyVal → Bool
+  | .int v => v != 0
+  | .atom b => b
+  | .cmds n _ => n != 0
+  | .nil _ => false
+  | _ => true
+
+/-- `serialize(script)` seen from `_tree_helper`: `assert_type(script, list, "tapscript")`, then the codec -/
+def PyVal.scriptBytes : PyVal → Except Err Bytes
+  | .cmds _ b => .ok b
+  | .nil true => .ok []
+  | .one true _ | .two true _ _ | .many true _ => .error .codec
+  | _ => .error .stype
+
+/-- `_tree_helper` below `leaf = script_tree[0]`: the pair guard, the integer guard, `leaf_version &= 0xFE`
+    (Python's `&` on a negative or oversize int is the `&` of its residue mod 256), `serialize(script)` -/
+def PyVal.toLeaf : PyVal → Except Err Tree
+  | .two _ (.int v) s => (s.scriptBytes).map (Tree.leaf (v % 256).toNat)
+  | .two _ _ _ => .error .vtype
+  | .cmds 2 _ => .error .vtype      -- `[["OP_1", "OP_2"]]`: a 2-sequence whose first half is a str
+  | _ => .error .leaf
+
+/-- the guards of `tree_helper` / `_tree_helper`, in the order the code meets them (left subtree wholly before the
+    right one): the `Tree` a Python value is read as, or the first refusal -/
+def PyVal.toTree : PyVal → Except Err Tree
+  | .one _ x => x.toLeaf
+  | .two _ l r =>
+    match l.toTree with
+    | .error e => .error e
+    | .ok tl =>
+      match r.toTree with
+      | .error e => .error e
+      | .ok tr => .ok (.node tl tr)
+  | .cmds 1 _ => .error .leaf       -- `["OP_1"]`: one element, and it is no pair
+  | _ => .error .node               -- not a list/tuple, or 0 / 3+ elements; `cmds 2 _` recurses into a command
+
+/-- the PUBLIC `tree_helper(script_tree)` -/
+def treeHelperPy (H : TagHash) (v : PyVal) : Except Err (List LeafInfo × Bytes) :=
+  v.toTree.map (treeHelper H)
+
+section pygroup
+variable {α : Type} (o : GroupOps α) (H : TagHash)
+
+/-- `_sec_from_key` refuses octets that are neither 33 nor 65 long BEFORE the tree is walked (a 32-byte string is
+    read as a private key there: outside this model, like every spelling beyond the SEC ones); what is wrong with
+    33 / 65 octets is found by the tweak, AFTER the walk -/
+def secLenBad (sec : Option Bytes) : Bool :=
+  match truthyKey sec with
+  | some s => s.length != 33 && s.length != 65
+  | none => false
+
+/-- `output_pubkey(internal_pubkey, script_tree)` on any Python value: `if script_tree: _, h = tree_helper(script_tree)
+    else: h = b""` — a falsy tree (`None`, `[]`, `()`, `0`, `""`) is NO tree, a truthy one is walked (and may be refused) -/
+def outputPubkeyPy (sec : Option Bytes) (tree : PyVal) : Except Err (Bytes × Nat) :=
+  if !tree.truthy then outputPubkey o H sec none else
+  if secLenBad sec then .error .key else
+  match tree.toTree with
+  | .error e => .error e
+  | .ok t => outputPubkey o H sec (some t)
+
+/-- `output_prvkey(prv_key, script_tree)`: the tree is walked (or skipped when falsy) BEFORE the key is read -/
+def outputPrvkeyPy (d : Int) (tree : PyVal) : Except Err Int :=
+  if !tree.truthy then outputPrvkey o H d none else
+  match tree.toTree with
+  | .error e => .error e
+  | .ok t => outputPrvkey o H d (some t)
+
+/-- `input_script_sig(internal_pubkey, script_tree, script_num)`: `_output_pubkey_and_internal_key` first (a falsy
+    tree is skipped THERE, so a bad key is reported first), then `tree_helper(script_tree)` unconditionally — which
+    refuses every falsy value as a node -/
+def inputScriptSigPy (sec : Option Bytes) (tree : PyVal) (i : Int) : Except Err (Bytes × Bytes) :=
+  if !tree.truthy then
+    match outputPubkey o H sec none with
+    | .error e => .error e
+    | .ok _ => match tree.toTree with
+      | .error e => .error e
+      | .ok _ => .error .node      -- unreachable: a falsy value is never a tree (`toTree_falsy`)
+  else
+    if secLenBad sec then .error .key else
+    match tree.toTree with
+    | .error e => .error e
+    | .ok t => inputScriptSig o H sec t i
+
+end pygroup
 end Btc.Taproot
